@@ -326,7 +326,19 @@ func (w *world) settle() {
 				Msg: fmt.Sprintf("the handler of stream %d read %d body bytes, only %d were sent within the advertised windows", id, rt, s.DataAccepted)})
 		}
 	}
-	w.viol = append(w.viol, w.led.Quiesce()...)
+	for _, v := range w.led.Quiesce() {
+		if v.Kind == "window-excess-not-rejected" && w.sc.Valid() {
+			// classification only (never the verdict): did the subject accept the frame because, by its own books, it
+			// had already granted the room - in a WINDOW_UPDATE that still sits in the stream's write queue behind
+			// response DATA blocked by the peer's send window?
+			for _, s := range w.sc.Snapshot().Streams {
+				if s.ID == v.Stream && s.QueuedWrites >= 2 && s.Out <= 0 {
+					v.Cause = "room granted only in a WINDOW_UPDATE still queued behind flow-blocked response DATA (not on the wire)"
+				}
+			}
+		}
+		w.viol = append(w.viol, v)
+	}
 }
 
 func (w *world) hids() []uint32 {
